@@ -52,18 +52,31 @@ func (tmgc *TCPMuxGroupCtl) Listen(
 	multiplexer, group, groupKey string,
 	routeConfig vhost.RouteConfig,
 ) (l net.Listener, err error) {
+	// Hold the controller lock until the join is complete, so that it cannot interleave
+	// with the last member leaving (which removes the group from the controller).
 	tmgc.mu.Lock()
+	defer tmgc.mu.Unlock()
 	tcpMuxGroup, ok := tmgc.groups[group]
 	if !ok {
 		tcpMuxGroup = NewTCPMuxGroup(tmgc)
 		tmgc.groups[group] = tcpMuxGroup
 	}
-	tmgc.mu.Unlock()
+	defer func() {
+		if err != nil && !ok {
+			// don't keep an empty group that was created only for this failed join
+			delete(tmgc.groups, group)
+		}
+	}()
 
 	verifhook.At("server.group.tcpmux.afterLookup", group)
 	switch v1.TCPMultiplexerType(multiplexer) {
 	case v1.TCPMultiplexerHTTPConnect:
-		return tcpMuxGroup.HTTPConnectListen(ctx, group, groupKey, routeConfig)
+		var ln *TCPMuxGroupListener
+		ln, err = tcpMuxGroup.HTTPConnectListen(ctx, group, groupKey, routeConfig)
+		if err != nil {
+			return nil, err
+		}
+		return ln, nil
 	default:
 		err = fmt.Errorf("unknown multiplexer [%s]", multiplexer)
 		return
@@ -173,6 +186,9 @@ func (tmg *TCPMuxGroup) Accept() <-chan net.Conn {
 // CloseListener remove the TCPMuxGroupListener from the TCPMuxGroup
 func (tmg *TCPMuxGroup) CloseListener(ln *TCPMuxGroupListener) {
 	verifhook.At("server.group.tcpmux.closeListener.enter", ln.groupName)
+	// lock order: controller, then group (same as TCPMuxGroupCtl.Listen)
+	tmg.ctl.mu.Lock()
+	defer tmg.ctl.mu.Unlock()
 	tmg.mu.Lock()
 	defer tmg.mu.Unlock()
 	for i, tmpLn := range tmg.lns {
@@ -184,7 +200,7 @@ func (tmg *TCPMuxGroup) CloseListener(ln *TCPMuxGroupListener) {
 	if len(tmg.lns) == 0 {
 		close(tmg.acceptCh)
 		tmg.tcpMuxLn.Close()
-		tmg.ctl.RemoveGroup(tmg.group)
+		delete(tmg.ctl.groups, tmg.group)
 	}
 }
 
